@@ -40,9 +40,11 @@ pub fn pieces_of(src: &str) -> Vec<String> {
     out
 }
 
+pub const MUT_COMMENTS: &[&str] = &["[- c -]", "[-é-]", " [- ö ü -] ", "[-- n --]", "[---]", "[- x --]", "[- a - b -]", " -- é", "[- ] -]", "[-\u{a0}-]", "[- 😀", "-]"];
+
 pub fn recipe_input_strategy(mutate: bool) -> impl Strategy<Value = InputCase> {
     let muts = if mutate {
-        proptest::collection::vec((0u8..5, any::<u16>(), 0usize..ALPHABET.len()), 1..5).boxed()
+        proptest::collection::vec((0u8..9, any::<u16>(), 0usize..ALPHABET.len(), any::<char>()), 1..5).boxed()
     } else {
         Just(vec![]).boxed()
     };
@@ -50,7 +52,7 @@ pub fn recipe_input_strategy(mutate: bool) -> impl Strategy<Value = InputCase> {
         let m = build(&raw, false);
         let (src, _) = print_recipe(&m, &raw.tape);
         let mut pieces = pieces_of(&src);
-        for (kind, pos, tok) in muts {
+        for (kind, pos, tok, ch) in muts {
             if pieces.is_empty() {
                 pieces.push(ALPHABET[tok].to_string());
                 continue;
@@ -69,7 +71,27 @@ pub fn recipe_input_strategy(mutate: bool) -> impl Strategy<Value = InputCase> {
                     pieces.swap(i, j);
                 }
                 3 => pieces.insert(i, ALPHABET[tok].to_string()),
-                _ => pieces[i] = ALPHABET[tok].to_string(),
+                4 => pieces[i] = ALPHABET[tok].to_string(),
+                // any character at all
+                5 => pieces.insert(i, ch.to_string()),
+                // a blank replaced by (or, where there is none, an insertion of) an exotic blank
+                6 => {
+                    let b = EXOTIC_BLANKS[tok % EXOTIC_BLANKS.len()].to_string();
+                    if pieces[i].chars().all(|c| c == ' ' || c == '\t') {
+                        pieces[i] = b;
+                    } else {
+                        pieces.insert(i, b);
+                    }
+                }
+                // a block comment (some with multi-byte content, some with dashes next to the delimiters)
+                7 => pieces.insert(i, MUT_COMMENTS[tok % MUT_COMMENTS.len()].to_string()),
+                // the piece doubled many times (long names, long digit runs, many entries)
+                _ => {
+                    let p = pieces[i].clone();
+                    for _ in 0..(3 + tok % 9) {
+                        pieces.insert(i, p.clone());
+                    }
+                }
             }
         }
         // mostly the configuration the recipe was written for, sometimes any
@@ -107,7 +129,7 @@ pub fn run_recipe_inputs(run: &mut Run, b: &Budget, rule: &str, oracle: InputOra
     run_prop(
         run,
         "recipe-mutations",
-        &format!("generated recipes with 1-4 token-level mutations (delete / duplicate / swap / insert / replace by an alphabet token) to reach deep analysis states with malformed input; {rule}"),
+        &format!("generated recipes with 1-4 token-level mutations (delete / duplicate / swap / insert / replace by an alphabet token / insert any character / exotic blank / block comment / repeat a piece 4-12 times) to reach deep analysis states with malformed input; {rule}"),
         || recipe_input_strategy(true),
         b.recipe_cases,
         |c: &InputCase, st| {
